@@ -220,6 +220,29 @@ def gen_scenario(seed, force_cfg=None, profile=None, drive=None):
                 rows.append({"n": n, "reqs": reqs})
         if rows:
             scn["prestart"] = rows
+    # an external controller: requests issued through the providers BETWEEN two step_simulation calls
+    # (modelled: `Reachable` is closed under externally issued request programs)
+    if drive["mode"] == "steps" and drive["n"] > 0 and r.random() < 0.3:
+        behx = Behaviour(stable_hash("ext", seed), cfg, prof)
+        ops = [o for o in ["setTimer", "setTimer", "setTimer", "cancelTimer", "goto", "setSpeed", "send", "broadcast",
+                           "setRange"] if behx.p["w"].get(o, 0) > 0] or ["setTimer"]
+        rows = []
+        for _ in range(r.choice([1, 2, 3, 5])):
+            n = r.randrange(cfg["nNodes"])
+            reqs = []
+            for _ in range(r.randint(1, 3)):
+                q = behx.make(r, r.choice(ops), n, "external", "", 0, 0)
+                if not q:
+                    continue
+                if q[0] == "setTimer":
+                    q = ["setTimerRel", q[1], q[2]]          # relative to the clock at the moment it is issued
+                elif q[0] in ("send", "broadcast"):
+                    q[1] = "x" + q[1]
+                reqs.append(q)
+            if reqs:
+                rows.append({"at": r.randrange(0, min(drive["n"], 40) + 1), "n": n, "reqs": reqs})
+        if rows:
+            scn["between"] = sorted(rows, key=lambda row: row["at"])
     # another simulation alive in the same process, advanced in lock-step (only possible while this one is stepped)
     if (drive["mode"] == "steps" or drive.get("pre")) and r.random() < 0.3:
         ref = cfg["refGeo"]
